@@ -150,6 +150,24 @@ Proof.
   destruct (rfind_m h (c :: d')); [|discriminate]. intro H; inversion H. apply prefix_firstn.
 Qed.
 
+Lemma parse_int_suffix w sg s z rest :
+  ParseInt.parse_int_m w sg s = ParseInt.POk (z, rest) -> is_suffix rest s.
+Proof.
+  unfold ParseInt.parse_int_m, ParseInt.parse_int_t.
+  destruct (ParseInt.sign_arm _ s) as [isneg bytes].
+  destruct (ParseInt.first_digit _ bytes) as [[num b1]|]; [|discriminate].
+  destruct (ParseInt.digit_loop _ num b1) as [[num2 b2]|]; [|discriminate].
+  destruct (ParseInt.apply_sign _ isneg num2); [|discriminate].
+  intro H; inversion H. unfold ParseInt.str_from. apply suffix_skipn.
+Qed.
+Lemma parse_bool_suffix s b rest :
+  ParseInt.parse_bool_m s = ParseInt.POk (b, rest) -> is_suffix rest s.
+Proof.
+  unfold ParseInt.parse_bool_m.
+  destruct (ParseInt.starts_with s _); [intro H; inversion H; apply suffix_skipn|].
+  destruct (ParseInt.starts_with s _); [intro H; inversion H; apply suffix_skipn|discriminate].
+Qed.
+
 Lemma count_cont_le l : (count_cont l <= length l)%nat.
 Proof. induction l as [|b l IH]; cbn [count_cont length]; [lia|]. destruct (byte_is_boundary b); lia. Qed.
 
@@ -158,7 +176,7 @@ Proof. induction l as [|b l IH]; cbn [count_cont length]; [lia|]. destruct (byte
 Definition op_dir (o : pop) : pdir :=
   match o with
   | OSkip _ | OTrimStart | OTrimStartMatches _ | OStripPrefix _ | OFindSkip _
-  | OSplit _ | OSplitTerminator _ | OSplitKeep _ => FromStart
+  | OSplit _ | OSplitTerminator _ | OSplitKeep _ | OParseInt _ _ | OParseBool => FromStart
   | OSkipBack _ | OTrimEnd | OTrimEndMatches _ | OStripSuffix _ | ORFindSkip _
   | ORSplit _ | ORSplitTerminator _ => FromEnd
   | OTrim | OTrimMatches _ => FromBoth
@@ -269,6 +287,14 @@ Proof.
     destruct (find_m (p_str q) d) as [pos|] eqn:Es; inversion E; subst.
     + rewrite <- Hq. apply suffix_skipn.
     + apply suffix_nil.
+  - (* parse_int *) apply frame_start_post; auto.
+    intros q v s y E Hq. rewrite <- Hq.
+    destruct (ParseInt.parse_int_m w sg (p_str q)) as [[z rest]|k] eqn:Es; [|discriminate].
+    inversion E; subst. eapply parse_int_suffix; eauto.
+  - (* parse_bool *) apply frame_start_post; auto.
+    intros q v s y E Hq. rewrite <- Hq.
+    destruct (ParseInt.parse_bool_m (p_str q)) as [[b rest]|k] eqn:Es; [|discriminate].
+    inversion E; subst. eapply parse_bool_suffix; eauto.
 Qed.
 
 Theorem inv_init orig base : bounds orig base -> Inv orig base (parser_with_start_offset orig base).
@@ -329,6 +355,10 @@ Definition free_fn (o : pop) (s : list Z) : option (list Z) :=
   | ORFindSkip pat => rfind_skip_m s pat
   | OSplitTerminator d => option_map snd (split_once_m s d)
   | ORSplitTerminator d => option_map fst (rsplit_once_m s d)
+  | OParseInt w sg =>
+      match ParseInt.parse_int_m w sg s with ParseInt.POk (_, rest) => Some rest | ParseInt.PErr _ => None end
+  | OParseBool =>
+      match ParseInt.parse_bool_m s with ParseInt.POk (_, rest) => Some rest | ParseInt.PErr _ => None end
   | _ => None
   end.
 
@@ -362,6 +392,8 @@ Proof.
     destruct (split_once_m (c :: s) d) as [[a b]|]; reflexivity.
   - destruct Hc as [Hy Hs]. rewrite Hy. destruct (p_str p) as [|c s] eqn:E; [congruence|].
     destruct (rsplit_once_m (c :: s) d) as [[a b]|]; reflexivity.
+  - destruct (ParseInt.parse_int_m w sg (p_str p)) as [[z rest]|k]; reflexivity.
+  - destruct (ParseInt.parse_bool_m (p_str p)) as [[b rest]|k]; reflexivity.
 Qed.
 
 (** only the split family touches [yielded_last_split] *)
@@ -385,6 +417,8 @@ Proof.
   - destruct (strip_suffix_m _ _); intro H; inversion H; reflexivity.
   - destruct (find_skip_m _ _); intro H; inversion H; reflexivity.
   - destruct (rfind_skip_m _ _); intro H; inversion H; reflexivity.
+  - destruct (ParseInt.parse_int_m _ _ _) as [[z rest]|k]; intro H; inversion H; reflexivity.
+  - destruct (ParseInt.parse_bool_m _) as [[b rest]|k]; intro H; inversion H; reflexivity.
 Qed.
 
 (** what a protocol run looks like from outside: pieces, then an error kind *)
